@@ -303,7 +303,9 @@ func c12AddChain(r *Run) {
 			r.ExpectArg(lc, "LogClient.VerifySCTSignature:leaf.type", 1, "p2")
 			r.ExpectArg(lc, "LogClient.VerifySCTSignature:leaf.timestamp", 2, "p1.Timestamp")
 			r.FailEdge(wf, "LogClient.VerifySCTSignature", EdgeSpec{Name: "leaf-build-failed", Atom: nilAtom("ct.MerkleTreeLeafFromRawChain(*)#1"), Bad: "non", Want: wantErr(false), Unreach: asInstrs(cs)})
-			r.ExpectStores(wf, "LogClient.VerifySCTSignature:leaf.extensions", "&(ct.MerkleTreeLeafFromRawChain(p3, p2, p1.Timestamp)#0.TimestampedEntry.Extensions)", "p1.Extensions", 1)
+			// the extensions inside the verified bytes are the SCT's: taken from the SCT by the signed
+			// structure itself, or put into the leaf here (rules_t8c12.go)
+			c12SignedExtensions(r, wf, cs, lc)
 			for _, c := range cs {
 				r.ExpectFields(wf, "LogClient.VerifySCTSignature:entry", CallArgs(c)[2], map[string]string{"Leaf": "*ct.MerkleTreeLeafFromRawChain(p3, p2, p1.Timestamp)#0"})
 				// the extensions are set before the leaf is copied into the entry that is verified
